@@ -20,6 +20,7 @@ pub fn opts() -> GenOpts {
     o.pos_and_cmd = true;
     o.cmd_or_words = true;
     o.twins = true;
+    o.any = true;
     o.usage_fallback = true;
     o.catch = true;
     o.adjacent_cmds = true;
@@ -62,7 +63,19 @@ pub fn run_case(case: &mut Case) {
     case.rep.definition(h);
     let parser = build_options(&spec);
     let alpha = alphabet(&spec);
-    case.say(&format!("definition: {}", spec.pretty()));
+    let pretty = spec.pretty();
+    case.say(&format!("definition: {}", pretty));
+    for (needle, shape) in [
+        ("]any(", "shape:any-or-literal"),
+        (".anywhere()", "shape:anywhere"),
+        (".adjacent()", "shape:adjacent"),
+        (".fallback_to_usage()", "shape:fallback-to-usage"),
+        (".command(", "shape:commands"),
+    ] {
+        if pretty.contains(needle) {
+            case.rep.count(shape);
+        }
+    }
 
     // invariant check is part of the quantifier: definitions that fail it are discarded
     let (inv, _) = guarded(0, || parser.check_invariants(false));
